@@ -37,7 +37,10 @@ def main():
         checks = res.get("checks", {})
         prop = meta["property"]
         hit = [p for p, c in checks.items() if c.get("rc")]
-        if prop in hit:
+        if meta.get("superseded"):
+            caught = "n/a"
+            first = "superseded: " + meta["superseded"]
+        elif prop in hit:
             caught = "yes"
             first = (checks[prop].get("what") or checks[prop].get("violations") or [""])[0]
         elif hit:
